@@ -127,7 +127,8 @@ Fixpoint run_fuel (fuel : nat) (op : string) (args : list val) : val :=
     match args with [VB p] => VC "c14c" [VBool (utf8_valid p)] | _ => VBad end
   else if tag_is name "c19" then
     match args with
-    | [VB p] => VC "c19" [if utf8_valid p then VSome (VB p) else VN; VB (lossy p); VB (lossy p); VBool true]
+    | [VB p] => VC "c19" [if utf8_valid p then VSome (VB p) else VN; VB (lossy p); VB (lossy p); VBool true;
+                          VL (repeat (VB (lossy p)) 6)]   (* Display ignores width / fill / precision, borrowed and owned *)
     | _ => VBad end
   else if tag_is name "c15d" then
     match args with [VB p] => VC "c15d" [VBool (derive_windows p)] | _ => VBad end
@@ -155,7 +156,7 @@ Fixpoint run_fuel (fuel : nat) (op : string) (args : list val) : val :=
     else if tag_is name "c08" then
       match args with [VB a; VB b] => VC "c08" [ob_join E typed a b; ob_hist E typed a [VC "push" [VB b]]] | _ => VBad end
     else if tag_is name "c09" then
-      match args with [VB p] => VC "c09" [ob_parent E p; ob_ancestors E p; ob_hist E typed p [VC "pop" []]] | _ => VBad end
+      match args with [VB p] => VC "c09" [ob_parent E p; ob_ancestors E p; ob_hist E typed p [VC "pop" []]; ob_parent_variants E typed p] | _ => VBad end
     else if tag_is name "c10" then
       match args with
       | [VB a; VB b] =>
@@ -253,7 +254,7 @@ Definition oracle_pair (which : string) (args : list val) (out : val) : N :=
                             val_eqb ca cb && list_eqb (ucomps ra) (ucomps rb) &&
                             (* the iterator reports a root / absoluteness exactly when std's remainder does *)
                             match vargs "t" fa, vargs "t" fb with
-                            | Some [ha; aa; _; _], Some [hb; ab; _; _] => val_eqb ha hb && val_eqb aa ab
+                            | Some [ha; aa; _; _; _], Some [hb; ab; _; _; _] => val_eqb ha hb && val_eqb aa ab
                             | _, _ => false
                             end
                         | _, _ => false
@@ -282,6 +283,24 @@ Fixpoint variants_ok (tag : string) (v : val) : bool :=
   | VL l => forallb (variants_ok tag) l
   | _ => true
   end.
+(* the two observations that exist only for one of the two sides of a same.* comparison:
+   - c09: the list of variant tags of the paths handed out (typed side only; checked by variants_ok) is dropped;
+   - c03: the prefix an iterator reports about itself (byte / UTF-8 components only; the typed components
+     have no such query) is blanked on both sides *)
+Fixpoint blank_state_prefix (v : val) : val :=
+  match v with
+  | VC t l =>
+      let l' := map blank_state_prefix l in
+      if tag_is t "t" then match l' with [hr; ab; pv; var; _] => VC t [hr; ab; pv; var; VN] | _ => VC t l' end
+      else VC t l'
+  | VL l => VL (map blank_state_prefix l)
+  | _ => v
+  end.
+Definition drop_parent_variants (v : val) : val :=
+  match v with
+  | VC t [a; b; c; _] => if tag_is t "c09" then VC t [a; b; c; VL []] else v
+  | _ => v
+  end.
 Definition untype (name : string) (v : val) : val :=
   let v := erase_variant v in
   if tag_is name "c05" then
@@ -289,6 +308,8 @@ Definition untype (name : string) (v : val) : val :=
     | VC t [ec; VL (_ :: ha); VL (_ :: hb)] => VC t [ec; VL ha; VL hb]
     | _ => v
     end
+  else if tag_is name "c09" then drop_parent_variants v
+  else if tag_is name "c03" then blank_state_prefix v
   else v.
 
 Definition check (op : string) (args : list val) (out : val) : N :=
@@ -303,10 +324,11 @@ Definition check (op : string) (args : list val) (out : val) : N :=
     match args, out with [VB p], VC t [VBool ok] => ob (tag_is t "c14c" && Bool.eqb ok (utf8_valid p)) | _, _ => 0 end
   else if tag_is name "c19" then
     match args, out with
-    | [VB p], VC t [ts; VB lo; VB di; VBool all_ok] =>
+    | [VB p], VC t [ts; VB lo; VB di; VBool all_ok; VL fmts] =>
         ob (tag_is t "c19" && all_ok
             && val_eqb ts (if utf8_valid p then VSome (VB p) else VN)
-            && beqN lo (lossy p) && beqN di (lossy p))
+            && beqN lo (lossy p) && beqN di (lossy p)
+            && Nat.eqb (List.length fmts) 6 && forallb (fun f => val_eqb f (VB (lossy p))) fmts)
     | _, _ => 0
     end
   else if tag_is name "c15d" then
@@ -324,7 +346,8 @@ Definition check (op : string) (args : list val) (out : val) : N :=
     match vargs "t" out with
     | Some [a; b] =>
         let tag := match family fam with Some (SelW, _) => "tw" | _ => "tu" end in
-        ob (val_eqb (if typed then untype n2 a else a) b && (if typed then variants_ok tag a else true))
+        let b' := if typed && tag_is n2 "c03" then blank_state_prefix b else b in
+        ob (val_eqb (if typed then untype n2 a else a) b' && (if typed then variants_ok tag a else true))
     | _ => 0
     end
   else oracle name suffix args out.
